@@ -9,11 +9,16 @@
      C04_forced: a subline change, or a page_by change under new_page, always starts a new page.
      C04_fill: the accounting never overflows the available rows, except for a single-row page.
      C04_append: appending rows never changes the pages of the earlier rows.
-   Lifted to documents through K2 (row metadata), which is modelled and validated by correspondence
-   (per-row heights come from the width oracle); the K2 prefix lemma is not proved yet, so the
-   document-level append statement is validated metamorphically on the implementation. *)
+     C04_append_rows: (Proofs/AppendProofs.v) the K2 prefix lemma and its consequence - the row metadata of
+                the first n frame rows (change flags, line counts, heading rows) does not depend on rows
+                appended after them, hence neither do their page numbers: for every frame, keys, widths,
+                fonts and sizes, firstn n (assign_pages (row_metadata (rows ++ extra))) =
+                assign_pages (row_metadata rows).
+   Per-row heights come from the width oracle (trusted); that the column-sliced attributes of the longer
+   frame agree with the shorter one's on the first n rows (prepare / slice_attrs) is validated
+   metamorphically on the implementation (append check of props/c04.py), not proved. *)
 From Coq Require Import List ZArith Bool.
-From V Require Import Doc Paginate PaginateProofs.
+From V Require Import Doc Paginate PaginateProofs AppendProofs.
 Import ListNotations.
 Local Open Scope Z_scope.
 
@@ -43,6 +48,13 @@ Theorem C04_append : forall nrow add np ms extra,
   firstn (length ms) (assign_pages nrow add np (ms ++ extra)) = assign_pages nrow add np ms.
 Proof. exact assign_prefix. Qed.
 Print Assumptions C04_append.
+
+Theorem C04_append_rows : forall widths fonts sizes cols rows extra rem cw pb sl nrow add np ms',
+  row_metadata widths fonts sizes {| f_cols := cols; f_rows := rows ++ extra |} rem cw pb sl = Ok ms' ->
+  exists ms, row_metadata widths fonts sizes {| f_cols := cols; f_rows := rows |} rem cw pb sl = Ok ms /\
+             firstn (length rows) (assign_pages nrow add np ms') = assign_pages nrow add np ms.
+Proof. exact append_keeps_pages. Qed.
+Print Assumptions C04_append_rows.
 
 Theorem C04_length : forall nrow add np ms, length (assign_pages nrow add np ms) = length ms.
 Proof. exact assign_length. Qed.
